@@ -128,12 +128,16 @@ pub fn c10_configs(thorough: bool) -> Vec<EpCfg> {
         (RoleK::Any, Some(Ver::V4)),
         (RoleK::Any, Some(Ver::V5)),
     ] {
-        for auto in [true, false] {
+        for (auto, offline) in [(true, false), (false, false), (true, true)] {
             if !thorough && !auto && role != RoleK::Client {
                 continue;
             }
+            if offline && (ver.is_none() || (!thorough && role != RoleK::Client)) {
+                continue;
+            }
             let v5 = ver == Some(Ver::V5);
-            let mut c = EpCfg::new(&cfg_name("c10", role, ver, &format!("auto={auto}")), role, ver);
+            let mut c = EpCfg::new(&cfg_name("c10", role, ver, &format!("auto={auto}{}", if offline { " offline" } else { "" })), role, ver);
+            c.offline = offline;
             c.auto_pub = auto;
             c.auto_ping = auto;
             c.pingresp_to = 5;
@@ -203,8 +207,22 @@ pub fn c10(rep: &mut Report) {
                         if let Some(d) = w.m.user_interval {
                             let _ = b.set_pingreq_send_interval(Some(d));
                         }
-                        let ta = handshake(&mut a, ver, as_client, which);
-                        let tb = handshake(&mut b, ver, as_client, which);
+                        // with offline publishing on, a publish made between the connections is part of the
+                        // comparison (same answer, same effect on the next connection)
+                        let mut pre_a: Trace = vec![];
+                        let mut pre_b: Trace = vec![];
+                        if w.cfg.offline && w.m.ids.is_empty() {
+                            for (c, t) in [(&mut a, &mut pre_a), (&mut b, &mut pre_b)] {
+                                let id = c.acquire().unwrap_or(0);
+                                t.push((format!("acquire -> {id}"), vec![]));
+                                send(c, t, AP::Publish { ver, dup: false, qos: 1, retain: false, topic: b"a".to_vec(), pid: Some(id), props: vec![], payload: b"p".to_vec() });
+                            }
+                        }
+                        let mut ta = handshake(&mut a, ver, as_client, which);
+                        let mut tb = handshake(&mut b, ver, as_client, which);
+                        pre_a.append(&mut ta);
+                        pre_b.append(&mut tb);
+                        let (ta, tb) = (pre_a, pre_b);
                         let sa = a.snap();
                         let sb = b.snap();
                         let pa = probe_script(&mut a, ver, as_client);
